@@ -18,7 +18,7 @@ from concurrent.futures import ThreadPoolExecutor
 import vf
 
 MUTANTS = ["response-is-request", "no-stream-events", "constant-name", "ignores-updates-only", "no-initial-value",
-           "rejected-update-writes", "get-ignores-mask"]
+           "rejected-update-writes", "get-ignores-mask", "get-writes"]
 SOFT = "pull-initial-value-not-received-in-time"
 METHOD_RE = re.compile(r"^func \(\w+ \*?(\w+)\) (Get|Update|Pull)(\w*)\(", re.M)
 
@@ -147,7 +147,7 @@ def run(ctx):
     ctx.cov["model_mutants_rejected_by"] = {k: sorted(v) for k, v in sorted(caught.items())}
 
     # ---- Gen ----------------------------------------------------------------------------------------
-    ncases = 9000 if thorough else 260
+    ncases = 12000 if thorough else 260
     gen = ctx.tlc("StackGen", "StackGen.cfg", consts={"NCases": ncases, "MaxOps": 12 if thorough else 10},
                   workers=4, timeout=1800)
     hists = gen.cases()
@@ -253,6 +253,7 @@ def run(ctx):
                 d["updates_rejected"] += 1
         elif o["op"] == "Get":
             d["masked_gets"] += not o["mask"]["nil"]
+            d["sub_field_masked_gets"] = d.get("sub_field_masked_gets", 0) + bool(o["mask"]["nested"])
         elif o["op"] == "OpenPull":
             d["pulls_opened"] += 1
         d["stream_deliveries_checked"] += sum(1 for s in o["streams"] if s["awaited"])
@@ -286,14 +287,14 @@ def run(ctx):
 MANIFEST = {
     "engine": "spec/Stack.tla + StackMC/StackGen/StackTrace.tla (TLC) + harness 'stackx'",
     "technique": "TLA+ relations between client observations of a register behind Wrap(router(Wrap(server))); TLC MC of a "
-                 "reference register with streams (relations hold, 7 seeded defects rejected); TLC-generated client histories "
+                 "reference register with streams (relations hold, 8 seeded defects rejected); TLC-generated client histories "
                  "replayed on every trait server found in the tree; TLC validates every recorded step",
     "text": "Stack.tla states what the property text demands of one client step given the unmasked Get before and after: "
             "a successful Update's response is the next Get; a masked Get is the projection of the unmasked one; a new Pull "
             "starts with the current value unless updates-only (an updates-only stream must not start with it); an Update whose "
             "response differs from the value before appears on every open stream with the response's value and the Pull "
             "request's name; a rejected (or crashing) Update leaves Get unchanged; a panic is never an answer. TLC checks these "
-            "relations on a reference machine whose server side is as free as the text leaves it and shows each of 7 seeded "
+            "relations on a reference machine whose server side is as free as the text leaves it and shows each of 8 seeded "
             "defects is rejected. TLC then prints random histories; stackx builds, per server of its registry (16 constructions "
             "of 14 server types in 13 packages, compared on every run with a scan of pkg/trait), the package's own "
             "WrapApi(NewApiRouter{2 names -> WrapApi(server)}) stack, drives it by full method name with requests built through "
